@@ -1640,3 +1640,27 @@ mod tests {
         );
     } // }}}
 }
+
+// -----------------------------------------------------------------------------
+// Verification hooks: compiled only with `--cfg sv_parser_verif`.
+// They expose private helpers unchanged; no behaviour is added.
+#[cfg(sv_parser_verif)]
+pub mod verif_hooks {
+    use super::*;
+
+    pub fn pt_new() -> PreprocessedText {
+        PreprocessedText::new()
+    }
+
+    pub fn pt_push(t: &mut PreprocessedText, s: &str, origin: Option<(PathBuf, Range)>) {
+        t.push(s, origin)
+    }
+
+    pub fn pt_merge(t: &mut PreprocessedText, other: PreprocessedText) {
+        t.merge(other)
+    }
+
+    pub fn split_text(s: &str) -> Vec<String> {
+        super::split_text(s)
+    }
+}
